@@ -27,7 +27,62 @@ RAISABLE = ['ValueError', 'KeyError', 'LookupError', 'Exception', 'KeyboardInter
 
 
 def key(k):
-    return chr(97 + k)
+    """dict key / attribute name tree -> Python object: n = the one-letter str chr(97+n); ['ki', n] int; ['kb', c...] bytes;
+    'kn' None; ['kt', n...] tuple of ints"""
+    if isinstance(k, int):
+        return chr(97 + k)
+    if k == 'kn':
+        return None
+    if k[0] == 'ki':
+        return k[1]
+    if k[0] == 'kb':
+        return bytes(k[1:])
+    if k[0] == 'kt':
+        return tuple(k[1:])
+    raise ValueError('bad key tree %r' % (k,))
+
+
+def keytree(pk):
+    if pk is None:
+        return 'kn'
+    if isinstance(pk, str) and len(pk) == 1 and ord(pk) >= 97:
+        return ord(pk) - 97
+    if isinstance(pk, int) and pk is not True and pk is not False:
+        return ['ki', pk]
+    if isinstance(pk, bytes):
+        return ['kb'] + list(pk)
+    if isinstance(pk, tuple) and all(isinstance(x, int) for x in pk):
+        return ['kt'] + list(pk)
+    return -1
+
+
+def key_order(k):
+    """canonical order in which dicts are built (mirrors keyLt in lean/TTV/Drv/C06.lean): None, ints, strs, bytes, tuples"""
+    if k == 'kn':
+        return (0,)
+    if isinstance(k, int):
+        return (2, k)
+    return {'ki': (1, k[1]) if k[0] == 'ki' else None, 'kb': (3, k[1:]), 'kt': (4, k[1:])}[k[0]]
+
+
+def key_value(k):
+    """the value tree of a key (what iterating the dict yields)"""
+    if isinstance(k, int):
+        return ['s', 97 + k]
+    if k == 'kn':
+        return None
+    if k[0] == 'ki':
+        return ['i', k[1]]
+    if k[0] == 'kb':
+        return ['b'] + k[1:]
+    return ['t'] + [['i', n] for n in k[1:]]
+
+
+def ktok(k):
+    return tuple(k) if isinstance(k, list) else k
+
+
+KEY_POOL = [0, 1, 2, 3, ['ki', 1], ['ki', 2], ['ki', -1], 'kn', ['kb', 97], ['kb'], ['kt', 1, 2], ['kt']]
 
 
 class ObjBase:
@@ -105,6 +160,8 @@ def build_v(t, ctx):
         return bytes(t[1:])
     if h == 'l':
         return [build_v(x, ctx) for x in t[1:]]
+    if h == 't':
+        return tuple(build_v(x, ctx) for x in t[1:])
     if h == 'd':
         return {key(k): build_v(x, ctx) for k, x in t[1:]}
     if h == 'o':
@@ -139,11 +196,13 @@ def unbuild(x):
     if isinstance(x, list):
         return ['l'] + [unbuild(y) for y in x]
     if isinstance(x, dict):
-        return ['d'] + [[ord(k) - 97 if isinstance(k, str) and len(k) == 1 else -1, unbuild(y)] for k, y in x.items()]
+        return ['d'] + [[keytree(k), unbuild(y)] for k, y in x.items()]
     if isinstance(x, ObjBase):
         return ['o', OBJ.index(type(x))] + [[ord(k) - 97 if len(k) == 1 else -1, unbuild(y)] for k, y in x.__dict__.items()]
     if isinstance(x, tuple) and len(x) == 3 and isinstance(x[1], BaseException):
         return ['ei', EXC_NAME.get(x[0], 'Unknown'), x[1].args[0] if len(x[1].args) == 1 else 'badargs']
+    if isinstance(x, tuple):
+        return ['t'] + [unbuild(y) for y in x]
     if isinstance(x, BaseException):
         return ['ev', EXC_NAME.get(type(x), 'Unknown'), x.args[0] if len(x.args) == 1 else 'badargs']
     if isinstance(x, Fn):
@@ -366,14 +425,14 @@ class C06(Prop):
     budgets = {'quick': 50000, 'thorough': 1200000}
     time_limit = {'quick': 40, 'thorough': 480}
     rule = ('value-directed random matcher expressions (depth 0-4) over all stock matchers of testtools.matchers.__all__ x matchees '
-            'from ints, strs, bytes, None, lists, dicts, objects with attributes, exc_info tuples, callables, scratch-dir paths '
+            'from ints, strs, bytes, None, lists, tuples, dicts (keys of several, mutually unorderable types), objects with attributes, exc_info tuples, callables, scratch-dir paths '
             '(MatchesPredicate leaves with well- and ill-formed messages included); '
             '~10% deliberately ill-typed; MatchesSetwise nodes carry two forced set-iteration orders. thorough adds every '
             'combinator over <=2 leaves of a 9-leaf alphabet x 8 values. non-trivial = a combinator at the root and the '
             'matcher has a Boolean verdict; distinct = distinct input S-expression')
     assumptions = [
         'Python semantics of ==, <, in, len, iter, startswith, isinstance, getattr on the value universe are modelled (TTV/Model/Matchers.lean), not verified',
-        'dicts/objects are built with ascending keys and objects/exceptions/callables are interned per case, so that == and `is` are structural equality in the model',
+        'dict keys are one-letter strs, ints, bytes, None and tuples of ints (mixed freely: such keys cannot be ordered with each other); dicts are built with the keys in a canonical order and objects/exceptions/callables are interned per case, so that == and `is` are structural equality in the model',
         'opaque leaves (MatchesRegex, DocTestMatches, filesystem matchers, Warnings/IsDeprecated/WarningMessage, MatchesPredicate[WithParams]) are tested against an independent oracle, not proved',
         'the scratch directory of the filesystem leaves holds a setuid file (4755), a setgid file (2644), a sticky directory (1777) besides plain modes; the permission oracle is stat.S_IMODE read back from the path',
         'the two builds of an expression differ in the iteration order of set(<matchers of a MatchesSetwise>), forced by re-allocating the matcher objects until list(set(..)) has the order given in the input (the verdict must not depend on it)',
@@ -578,7 +637,7 @@ class C06(Prop):
         out.append(x)
         if depth > 4:
             return
-        if isinstance(x, list):
+        if isinstance(x, list) or (isinstance(x, tuple) and not (len(x) == 3 and isinstance(x[1], BaseException))):
             for y in x:
                 self.candidates(y, out, depth + 1)
         elif isinstance(x, dict):
@@ -725,7 +784,7 @@ class C06(Prop):
 
     def enumerate(self, tier):
         vals = [['i', 1], ['i', 2], ['s', 97], ['l'], ['l', ['i', 1]], ['l', ['i', 1], ['i', 2]], ['l', ['i', 2], ['i', 1]],
-                ['d', [0, ['i', 1]]], None]
+                ['d', [0, ['i', 1]]], None, ['d', [['ki', 1], ['i', 1]], [0, ['i', 2]]], ['t', ['i', 1], ['i', 2]]]
         leaves = [['eq', ['i', 1]], ['eq', ['i', 2]], ['lt', ['i', 2]], ['always'], ['never'], ['len', 2], ['contains', ['i', 1]],
                   ['isinst', 'int'], ['any', ['eq', ['i', 1]], ['eq', ['i', 2]]]]
         unary = [lambda a: ['not', a], lambda a: ['allmatch', a], lambda a: ['anymatch', a], lambda a: ['annot', a],
@@ -733,7 +792,7 @@ class C06(Prop):
                  lambda a: ['dict', 'exact', [0, a]], lambda a: ['dict', 'contains', [0, a]], lambda a: ['dict', 'containedBy', [0, a]]]
         binary = [lambda a, b: ['all', False, a, b], lambda a, b: ['all', True, a, b], lambda a, b: ['any', a, b],
                   lambda a, b: ['listwise', False, a, b], lambda a, b: ['listwise', True, a, b],
-                  lambda a, b: ['setwise', [0, 1], [1, 0], a, b], lambda a, b: ['dict', 'exact', [0, a], [1, b]],
+                  lambda a, b: ['setwise', [0, 1], [1, 0], a, b], lambda a, b: ['dict', 'exact', [0, a], [1, b]], lambda a, b: ['dict', 'contains', [['ki', 1], a], [0, b]],
                   lambda a, b: ['allmatch', ['any', a, b]], lambda a, b: ['not', ['all', False, a, b]]]
         for v in vals:
             for a in leaves:
@@ -758,6 +817,10 @@ class C06(Prop):
         else:
             f.append('trace:' + str(trace[0]))
         f += greedy_report(m, v)
+        if mixed_keys(v):
+            f.append('dict-value:unorderable-keys')
+        if mixed_keys(m):
+            f.append('dict-matcher/KeysEqual:unorderable-keys')
         if isinstance(v, list) and v[0] == 's' and len(v) > 20:
             name = ''.join(map(chr, v[1:])).rsplit('/', 1)[-1]
             if name in ('suid', 'sgid', 'sticky'):
@@ -865,6 +928,26 @@ def fs_case(r):
     return [m, v]
 
 
+def key_type(k):
+    return 'str' if isinstance(k, int) else 'none' if k == 'kn' else k[0]
+
+
+def mixed_keys(t):
+    """does some dict value / dict matcher / KeysEqual of the tree have keys of two or more types?"""
+    if not isinstance(t, list) or not t:
+        return False
+    ks = None
+    if t[0] == 'd':
+        ks = [e[0] for e in t[1:]]
+    elif t[0] == 'dict':
+        ks = [e[0] for e in t[2:]]
+    elif t[0] == 'keys':
+        ks = t[1:]
+    if ks is not None and len({key_type(k) for k in ks}) >= 2:
+        return True
+    return any(mixed_keys(x) for x in t[1:] if isinstance(x, list))
+
+
 def greedy_report(m, v):
     """for a root MatchesSetwise over eq / any-of-eq / always matchers on a list: does a full pairing exist, and would
     the first-accepting-matcher loop of the pinned tree find one in the two hash-set orders?  (evidence only)"""
@@ -908,7 +991,7 @@ def greedy_report(m, v):
 
 LEAF_HEADS = {'eq', 'ne', 'is', 'lt', 'gt', 'same', 'starts', 'ends', 'contains', 'isinst', 'len', 'always', 'never', 'keys',
               'exctype', 'excinst', 'raisesAny', 'opq', 'pred', 'raisesFn', 'raisesInst', 'exctypeRe', 'containsAll'}
-VALUE_HEADS = {'i', 's', 'b', 'l', 'd', 'o', 'ei', 'ev', 'fr', 'fx'}
+VALUE_HEADS = {'i', 's', 'b', 'l', 't', 'd', 'o', 'ei', 'ev', 'fr', 'fx'}
 
 
 def sub_matchers(m):
@@ -973,7 +1056,7 @@ def shrink_v(v):
     if not isinstance(v, list):
         return
     h = v[0]
-    if h == 'l':
+    if h in ('l', 't'):
         for i in range(1, len(v)):
             yield v[:i] + v[i + 1:]
             yield v[i]
@@ -1015,10 +1098,10 @@ class Gen:
 
     def value(self, depth=2, kinds=None):
         r = self.r
-        kinds = kinds or ['int', 'int', 'str', 'str', 'bytes', 'none', 'list', 'list', 'list', 'dict', 'dict', 'obj', 'obj',
+        kinds = kinds or ['int', 'int', 'str', 'str', 'bytes', 'none', 'list', 'list', 'list', 'tuple', 'dict', 'dict', 'dict', 'obj', 'obj',
                           'ei', 'fn', 'fn']
         k = r.choice(kinds)
-        if depth == 0 and k in ('list', 'dict', 'obj'):
+        if depth == 0 and k in ('list', 'tuple', 'dict', 'obj'):
             k = r.choice(['int', 'str'])
         if k == 'int':
             return self.int_()
@@ -1028,16 +1111,16 @@ class Gen:
             return self.bytes_()
         if k == 'none':
             return None
-        plain = ['int', 'int', 'int', 'str', 'str', 'none', 'list', 'dict', 'obj', 'bytes']
-        if k == 'list':
+        plain = ['int', 'int', 'int', 'str', 'str', 'none', 'list', 'tuple', 'dict', 'obj', 'bytes']
+        if k in ('list', 'tuple'):
+            head = 'l' if k == 'list' else 't'
             n = r.choice([0, 1, 2, 2, 3, 3, 4])
             if r.random() < 0.6:     # homogeneous
                 kk = [r.choice(['int', 'int', 'str', 'list', 'dict', 'obj'])]
-                return ['l'] + [self.value(depth - 1, kk) for _ in range(n)]
-            return ['l'] + [self.value(depth - 1, plain) for _ in range(n)]
+                return [head] + [self.value(depth - 1, kk) for _ in range(n)]
+            return [head] + [self.value(depth - 1, plain) for _ in range(n)]
         if k == 'dict':
-            ks = sorted(r.sample(range(4), r.choice([0, 1, 2, 2, 3])))
-            return ['d'] + [[kk, self.value(depth - 1, plain)] for kk in ks]
+            return ['d'] + [[kk, self.value(depth - 1, plain)] for kk in self.keys_(r.choice([0, 1, 2, 2, 3]))]
         if k == 'obj':
             ks = sorted(r.sample(range(3), r.choice([0, 1, 2, 2, 3])))
             return ['o', r.randrange(3)] + [[kk, self.value(depth - 1, plain)] for kk in ks]
@@ -1048,6 +1131,13 @@ class Gen:
                 return ['fr', self.value(min(depth, 1), ['int', 'int', 'str', 'none', 'list'])]
             return ['fx', r.choice(RAISABLE), r.choice([0, 1, 2, 11])]
         raise AssertionError(k)
+
+    def keys_(self, n):
+        """n distinct dict keys in canonical order: one-letter strs only (50%), or a mix of strs, ints, None, bytes, tuples
+        (keys of different types cannot be ordered with each other)"""
+        r = self.r
+        pool = KEY_POOL[:4] if r.random() < 0.5 else KEY_POOL
+        return sorted(r.sample(pool, min(n, len(pool))), key=key_order)
 
     def near(self, v):
         """a value equal or close to v"""
@@ -1062,14 +1152,16 @@ class Gen:
             if len(v) > 1 and x < 0.75:
                 return v[:-1]
             return v + [98]
-        if h == 'l':
+        if h in ('l', 't'):
             if len(v) > 1 and x < 0.7:
                 i = r.randrange(1, len(v))
                 return v[:i] + v[i + 1:]
             if len(v) > 2 and x < 0.85:
                 w = v[1:]
                 r.shuffle(w)
-                return ['l'] + w
+                return [h] + w
+            if x < 0.9:
+                return ['l' if h == 't' else 't'] + v[1:]      # same members, other sequence type
             return v + [self.int_()]
         if h in ('d', 'o'):
             lo = 1 if h == 'd' else 2
@@ -1087,13 +1179,13 @@ class Gen:
     def vtype(self, v):
         if not isinstance(v, list):
             return 'none'
-        return {'i': 'int', 's': 'str', 'b': 'bytes', 'l': 'list', 'd': 'dict', 'o': 'obj', 'ei': 'ei', 'ev': 'ev',
+        return {'i': 'int', 's': 'str', 'b': 'bytes', 'l': 'list', 't': 'tuple', 'd': 'dict', 'o': 'obj', 'ei': 'ei', 'ev': 'ev',
                 'fr': 'fn', 'fx': 'fn'}[v[0]]
 
     def typetag(self, v):
         r = self.r
         t = self.vtype(v)
-        own = {'int': 'int', 'str': 'str', 'bytes': 'bytes', 'list': 'list', 'dict': 'dict', 'none': 'NoneType',
+        own = {'int': 'int', 'str': 'str', 'bytes': 'bytes', 'list': 'list', 'tuple': 'tuple', 'dict': 'dict', 'none': 'NoneType',
                'ei': 'tuple', 'fn': 'object'}.get(t)
         if t == 'obj':
             own = ['obj', v[1]]
@@ -1114,10 +1206,10 @@ class Gen:
         if not isinstance(v, list):
             return None
         h = v[0]
-        if h == 'l':
+        if h in ('l', 't'):
             return v[1:]
         if h == 'd':
-            return [['s', 97 + k] for k, _ in v[1:]]
+            return [key_value(k) for k, _ in v[1:]]
         if h == 's':
             return [['s', c] for c in v[1:]]
         if h == 'b':
@@ -1131,19 +1223,19 @@ class Gen:
         has_ei = "'ei'" in repr(v)        # == on exc_info tuples is outside the modelled domain inside Raises
         opts = ['always', 'never', 'isinst', 'isinst', 'pred']
         if has_ei and t != 'ei':
-            opts += ['len'] if t in ('list', 'dict') else []
+            opts += ['len'] if t in ('list', 'tuple', 'dict') else []
             t = 'other'
         if not has_ei:
             opts += ['eq', 'eq', 'eq', 'ne']
         if t in ('none', 'obj', 'fn', 'ev'):
             opts += ['is']
-        if t in ('int', 'str', 'bytes', 'list'):
+        if t in ('int', 'str', 'bytes', 'list', 'tuple'):
             opts += ['lt', 'gt']
         if t in ('str', 'bytes'):
             opts += ['starts', 'ends', 'contains', 'len', 'opq', 'opq', 'same']
         if t == 'int':
             opts += ['opq']
-        if t in ('list', 'dict'):
+        if t in ('list', 'tuple', 'dict'):
             opts += ['contains', 'contains', 'containsAll', 'len', 'len', 'same', 'same']
         if t == 'dict':
             opts += ['keys', 'keys']
@@ -1162,8 +1254,8 @@ class Gen:
             return [k, self.near(v)]
         if k in ('lt', 'gt'):
             w = self.near(v)
-            if t == 'list' and r.random() < 0.5:
-                w = ['l'] + [self.int_() for _ in range(r.randint(0, 2))]
+            if t in ('list', 'tuple') and r.random() < 0.5:
+                w = [v[0]] + [self.int_() for _ in range(r.randint(0, 2))]
             return [k, w]
         if k in ('starts', 'ends'):
             body = v[1:]
@@ -1183,7 +1275,7 @@ class Gen:
                 return ['contains', r.choice([['i', r.choice([97, 98, 0, 255, 256, -1])], ['b'] + v[1:][:r.randint(0, 2)]])]
             if es and r.random() < 0.7:
                 return ['contains', r.choice(es)]
-            return ['contains', r.choice([self.int_(), self.str_(), ['l'], None])]
+            return ['contains', r.choice([self.int_(), self.str_(), ['l'], None, ['t', ['i', 1], ['i', 2]], ['t'], ['b', 97], ['t', ['l']]])]
         if k == 'containsAll':
             es = self.elems(v) or []
             items = [r.choice(es) for _ in range(r.randint(0, 2))] if es else []
@@ -1210,7 +1302,7 @@ class Gen:
             if x < 0.2 and ks:
                 ks = ks[:-1]
             elif x < 0.35:
-                ks = ks + [r.randrange(5)]
+                ks = ks + [r.choice(KEY_POOL)]         # possibly a duplicate / a key of another type
             r.shuffle(ks)
             return ['keys'] + ks
         if k == 'exctype':
@@ -1329,13 +1421,14 @@ class Gen:
             return ['setwise', ka, kb] + ms
         if k == 'dict':
             kvs = v[1:]
-            entries = {kk: self.matcher(x, depth - 1) for kk, x in kvs}
+            entries = {ktok(kk): [kk, self.matcher(x, depth - 1)] for kk, x in kvs}
             x = r.random()
             if x < 0.2 and entries:
-                del entries[r.choice(sorted(entries))]
+                del entries[r.choice(sorted(entries, key=repr))]
             elif x < 0.4:
-                entries[r.randrange(5)] = ['always']
-            return ['dict', r.choice(['exact', 'contains', 'containedBy'])] + [[kk, entries[kk]] for kk in sorted(entries)]
+                extra = r.choice(KEY_POOL)
+                entries[ktok(extra)] = [extra, r.choice([['always'], ['never']])]
+            return ['dict', r.choice(['exact', 'contains', 'containedBy'])] + sorted(entries.values(), key=lambda e: key_order(e[0]))
         if k == 'struct':
             kvs = v[2:]
             entries = [[a, self.matcher(x, depth - 1)] for a, x in kvs if r.random() < 0.8]
